@@ -21,7 +21,7 @@ from c16 import q, qpt, cb, gen_spec, DEPTH_Z, DEPTH_H, gen_straddle_volumes
 PID = "C03"
 
 HEADER = """From Coq Require Import QArith List ZArith NArith Bool Arith.
-From Scenic Require Import C16.RegionAlg C16.Cases C03.Sampler C03.Cases.
+From Scenic Require Import C16.RegionAlg C16.Cases C03.Sampler C03.Placement C03.Cases.
 Import ListNotations.
 Open Scope Q_scope.
 """
@@ -166,6 +166,146 @@ def gen_continuous(rng, idx, n):
     return c
 
 
+# ------------------------------------------------------------------ regions with RANDOM parameters, sampled through the scenario path
+SCEN_SHAPES = ["box", "sphere", "meshbox", "L", "U", "cyl"]
+
+
+def gen_scenario(rng, idx, n):
+    """a Scenic PROGRAM whose region has random parameters (position / rotation / dimensions drawn per scene, un-centred meshes,
+    view regions of randomly posed observers, lazily composed volumes); objects / points are placed `in` it by scenario.generate and
+    every drawn point is judged against the CONCRETE region of its own scene (independent geometry in impl_c03.run_scenario)"""
+    fam = rng.choice(["mesh", "mesh", "mesh", "view", "view", "view", "op"])
+    cfg = dict(id=idx, kind="scen", family=fam, seed=rng.randint(0, 10 ** 6), n=n)
+    params = []
+
+    def rnd(lo, hi, force=False, p=0.5):
+        """a fixed number or a fresh random parameter Range(lo, hi)"""
+        if force or rng.random() < p:
+            name = f"q{len(params)}"
+            a = round(rng.uniform(lo, hi), 3)
+            b = round(rng.uniform(lo, hi), 3)
+            if abs(a - b) < 0.05 * (hi - lo):
+                b = round(a + 0.3 * (hi - lo), 3)
+            params.append((name, min(a, b), max(a, b)))
+            return ["p", name]
+        return round(rng.uniform(lo, hi), 3)
+
+    def txt(e):
+        return f"globalParameters.{e[1]}" if isinstance(e, list) else repr(float(e))
+
+    far = rng.choice([0.0, 0.0, 8.0, 60.0])          # regions far from the origin as well
+    lines = []
+    if fam == "mesh":
+        shape = rng.choice(SCEN_SHAPES)
+        surface = shape != "sphere" and rng.random() < 0.3
+        center = True if shape in ("box", "sphere") else rng.random() < 0.4
+        offset = [0.0, 0.0, 0.0] if (center and rng.random() < 0.5) or shape in ("box", "sphere") else [round(rng.uniform(-6, 6), 2) for _ in range(3)]
+        which = rng.choice(["pos", "rot", "dims", "pos+rot", "all"])
+        pos = [rnd(-2 + far, 2 + far, p=0.6 if "pos" in which or which == "all" else 0.0) for _ in range(3)]
+        if which in ("pos", "pos+rot", "all") and not any(isinstance(e, list) for e in pos):
+            pos[0] = rnd(-2 + far, 2 + far, force=True)
+        rot = [rnd(-3, 3, p=0.6 if "rot" in which or which == "all" else 0.0), rnd(-1.2, 1.2, p=0.5 if "rot" in which or which == "all" else 0.0),
+               rnd(-1.2, 1.2, p=0.5 if "rot" in which or which == "all" else 0.0)]
+        if which in ("rot", "pos+rot") and not any(isinstance(e, list) for e in rot):
+            rot[0] = rnd(-3, 3, force=True)
+        if rng.random() < 0.3 and which not in ("rot", "pos+rot", "all"):
+            rot = None
+        dims = None
+        if shape in ("box", "sphere") or which in ("dims", "all") or rng.random() < 0.5:
+            # surfaces: fixed dimensions (the area measure of a face depends on them; cells are computed from the fixed values)
+            dims = [rnd(1, 5, p=0.0 if surface else (0.6 if which in ("dims", "all") else 0.0)) for _ in range(3)]
+            if which == "dims" and not surface and not any(isinstance(e, list) for e in dims):
+                dims[rng.randrange(3)] = rnd(1, 5, force=True)
+        if not params:
+            pos[rng.randrange(3)] = rnd(-2 + far, 2 + far, force=True)
+        cfg["region"] = dict(shape=shape, surface=surface, center=center, offset=offset, pos=pos, rot=rot, dims=dims)
+        lines += ["import trimesh, shapely.geometry"]
+        lines += [f"param {nm} = Range({lo}, {hi})" for nm, lo, hi in params]
+        kw = [f"position=Vector({', '.join(txt(e) for e in pos)})"]
+        if rot is not None:
+            kw.append(f"rotation=({', '.join(txt(e) for e in rot)})")
+        if dims is not None:
+            kw.append(f"dimensions=({', '.join(txt(e) for e in dims)})")
+        if shape in ("box", "sphere") and not surface:
+            lines.append(f"region = {'BoxRegion' if shape == 'box' else 'SpheroidRegion'}({', '.join(kw)})")
+        else:
+            mk = {"box": "trimesh.creation.box((1, 1, 1))", "meshbox": "trimesh.creation.box((1, 1, 1))",
+                  "cyl": "trimesh.creation.cylinder(radius=1, height=1, sections=12)",
+                  "L": "trimesh.creation.extrude_polygon(shapely.geometry.Polygon([(0, 0), (2, 0), (2, 1), (1, 1), (1, 2), (0, 2)]), 1.0)",
+                  "U": "trimesh.creation.extrude_polygon(shapely.geometry.Polygon([(0, 0), (3, 0), (3, 2), (2, 2), (2, 1), (1, 1), (1, 2), (0, 2)]), 1.0)"}[shape]
+            lines.append(f"mesh = {mk}")
+            if any(offset):
+                lines.append(f"mesh.apply_translation(({offset[0]}, {offset[1]}, {offset[2]}))")
+            if not center:
+                kw.append("centerMesh=False")
+            if surface:
+                kw.append("orientation=None")
+            lines.append(f"region = {'MeshSurfaceRegion' if surface else 'MeshVolumeRegion'}(mesh, {', '.join(kw)})")
+        form = rng.choice(["object", "object", "point"])
+        cfg["form"] = form
+        if form == "object":
+            lines.append("target = new Object in region, with allowCollisions True, with requireVisible False")
+        else:
+            lines.append("pt = new Point in region")
+            lines.append("target = new Object at pt, with allowCollisions True, with requireVisible False")
+    elif fam == "view":
+        mode = rng.choice(["in_visibleRegion", "in_visibleRegion", "visible", "visible_from"])
+        case = rng.choice(["cone", "cone", "cone", "wedge", "sphere"])
+        if case == "cone":
+            angles = [round(rng.uniform(15, 200), 1), round(rng.uniform(15, 150), 1)]
+        elif case == "wedge":
+            angles = [round(rng.uniform(20, 300), 1), 180.0]
+        else:
+            angles = [360.0, 180.0]
+        D = rng.choice([2.0, 5.0, 10.0, 25.0])
+        cam = [0.0, 0.0, 0.0] if rng.random() < 0.6 else [round(rng.uniform(-1, 1), 2) for _ in range(3)]
+        pos = [rnd(-2 + far, 2 + far, p=0.7) for _ in range(3)]
+        rot = [rnd(-180, 180, p=0.7), rnd(-60, 60, p=0.5), rnd(-60, 60, p=0.4)]
+        if not params:
+            rot[0] = rnd(-180, 180, force=True)
+        cfg["view"] = dict(mode=mode, angles=angles, dist=D, cam=cam, case=case, workspace=8 * D + 2 * abs(far) + 20)
+        lines += [f"param {nm} = Range({lo}, {hi})" for nm, lo, hi in params]
+        if mode != "in_visibleRegion":
+            lines.append(f"workspace = Workspace(BoxRegion(dimensions=({cfg['view']['workspace']}, {cfg['view']['workspace']}, {cfg['view']['workspace']})))")
+        obs = (f"new Object at ({', '.join(txt(e) for e in pos)}), facing ({', '.join(txt(e) + ' deg' for e in rot)}), "
+               f"with viewAngles ({angles[0]} deg, {angles[1]} deg), with visibleDistance {D}, with cameraOffset ({cam[0]}, {cam[1]}, {cam[2]}), "
+               "with allowCollisions True, with requireVisible False")
+        if mode == "visible_from":
+            lines.append(f"ego = new Object at ({far}, 0, {cfg['view']['workspace'] / 2 - 3}), with allowCollisions True")
+            lines.append(f"observer = {obs}")
+            # an Object is visible as soon as any part of it is: a tiny one is visible iff its centre is within 0.01 of the view region
+            lines.append("target = new Object visible from observer, with width 0.01, with length 0.01, with height 0.01, with allowCollisions True")
+            cfg["view"]["observer"], cfg["view"]["target"] = 1, 2
+        else:
+            lines.append(f"ego = {obs}")
+            if mode == "visible":
+                lines.append("target = new Object visible, with width 0.01, with length 0.01, with height 0.01, with allowCollisions True")
+            else:
+                lines.append("target = new Object in ego.visibleRegion, with allowCollisions True, with requireVisible False")
+            cfg["view"]["observer"], cfg["view"]["target"] = 0, 1
+    else:
+        op = rng.choice(["intersect", "difference", "union"])
+        specs = []
+        for t in range(2):
+            shape = rng.choice(["box", "sphere"])
+            pos = [rnd(-1 + far, 1 + far, p=0.6) for _ in range(3)]
+            rot = [rnd(-3, 3, p=0.3), 0.0, 0.0]
+            dims = [round(rng.uniform(3, 5), 2) for _ in range(3)]
+            specs.append(dict(shape=shape, pos=pos, rot=rot, dims=dims))
+        if not params:
+            specs[0]["pos"][0] = rnd(-1 + far, 1 + far, force=True)
+        cfg["op"] = dict(op=op, operands=specs)
+        lines += [f"param {nm} = Range({lo}, {hi})" for nm, lo, hi in params]
+        for nm, s in zip("ab", specs):
+            lines.append(f"{nm} = {'BoxRegion' if s['shape'] == 'box' else 'SpheroidRegion'}(position=Vector({', '.join(txt(e) for e in s['pos'])}), "
+                         f"rotation=({', '.join(txt(e) for e in s['rot'])}), dimensions=({', '.join(txt(e) for e in s['dims'])}))")
+        lines.append(f"target = new Object in a.{op}(b), with allowCollisions True, with requireVisible False")
+        cfg["n"] = min(n, 150)
+    cfg["params"] = [list(p) for p in params]
+    cfg["program"] = "\n".join(lines) + "\n"
+    return cfg
+
+
 def formula_cases(cfg, r, cases):
     """model formula on the logged draws must reproduce the returned point"""
     if cfg["kind"] != "prim":
@@ -273,6 +413,11 @@ def main():
     npts = 3000 if quick else 30000
     dconfigs = [gen_discrete(rng, i, pool) for i in range(ndisc)]
     cconfigs = [gen_continuous(rng, 10000 + i, npts) for i in range(ncont)]
+    # regions with random parameters sampled through the scenario path (own rng stream: the cases above keep their seeds)
+    import random as _random
+    srng = _random.Random(f"{c.seed}:scen")
+    nscen = int(os.environ.get("C03_NSCEN", 24 if quick else 120))
+    cconfigs += [gen_scenario(srng, 20000 + i, 160 if quick else 600) for i in range(nscen)]
     if c.replay:
         body = json.load(open(c.replay))
         cfg = body.get("case", {}).get("config")
@@ -371,8 +516,14 @@ def main():
     for cfg in cconfigs:
         r = cres[cfg["id"]]
         base = dict(config=cfg)
-        kinds = cfg["kind"] + ":" + cfg["A"]["kind"] + ("+" + cfg["B"]["kind"] if "B" in cfg else "")
-        if cfg["kind"] == "hist":
+        if cfg["kind"] == "scen":
+            kinds = "scen:" + cfg["family"] + ":" + (cfg["region"]["shape"] + (":surface" if cfg["region"]["surface"] else "") + ("" if cfg["region"]["center"] else ":uncentred")
+                                                      if cfg["family"] == "mesh" else (cfg["view"]["mode"] + ":" + cfg["view"]["case"] if cfg["family"] == "view" else cfg["op"]["op"]))
+        else:
+            kinds = cfg["kind"] + ":" + cfg["A"]["kind"] + ("+" + cfg["B"]["kind"] if "B" in cfg else "")
+        if cfg["kind"] == "scen":
+            c.hist("scenario:" + kinds)
+        elif cfg["kind"] == "hist":
             kinds += ":" + "/".join(cfg["ops"])
         elif "B" in cfg and r.get("overlap_area") is not None:
             kinds += ":different-heights"
@@ -390,7 +541,11 @@ def main():
             c.hist("continuous-empty")
             continue
         c.count((kinds, cfg["seed"]), nontrivial=cfg["kind"] != "prim" or cfg["A"].get("heading", 1) != 0, n=r["n"])
-        if r["bad_members"]:
+        if r["bad_members"] and cfg["kind"] == "scen":
+            c.violation("membership", f"{kinds}: {r['nbad']} of {r['n']} points placed `in` a region with random parameters by scenario.generate do not lie in "
+                        "the region as placed for their own scene (independent geometry on the scene's concrete parameters, all three coordinates)",
+                        dict(base, result_class=r["class"], samples=r["bad_members"]))
+        elif r["bad_members"]:
             c.violation("membership", f"{kinds}: a sampled point does not belong to the region (operands' containsPoint, all three coordinates)",
                         dict(base, result_class=r["class"], samples=r["bad_members"]))
         formula_cases(cfg, r, cases)
@@ -404,6 +559,26 @@ def main():
             if not x["ok"]:
                 c.violation("uniformity", f"{kinds}: chi^2 uniformity test fails (statistic {x['stat']:.1f} > {x['threshold']:.1f}, dof {x['dof']}, "
                             f"{x['outside']} samples outside the region's bounding cells)", dict(base, result_class=r["class"], chi2=x))
+    # ---- placement: MeshRegion.mesh / sampleGiven vs the model C03.Placement.place (vertices of the placed mesh)
+    pcfgs = [cfg for cfg in cconfigs if cfg["kind"] == "scen" and cfg["family"] == "mesh" and cfg["region"]["shape"] != "sphere"][:12 if quick else 60]
+    if pcfgs:
+        pres = common.run_impl("impl_c03.py", dict(kind="placement", configs=pcfgs), timeout=3000)["results"]
+        for cfg, r in zip(pcfgs, pres):
+            if "rows" not in r:
+                if "exc" in r:
+                    c.violation("sampler", f"placing a mesh region fails with {r['exc']}", dict(config=cfg, exc=r["exc"], msg=r.get("msg")))
+                continue
+            reg = cfg["region"]
+            scale = [d / e for d, e in zip(r["dims"], r["extents"])] if r["dims"] else [1.0, 1.0, 1.0]
+            M = r["matrix"]
+            mat = "(mkmat " + " ".join(q(M[i][j]) for i in range(3) for j in range(3)) + ")"
+            for row in r["rows"]:
+                for how in ("direct", "sampled"):
+                    c.count((cfg["id"], "place", how, tuple(row["v"])), nontrivial=any(isinstance(e, list) for e in reg["pos"] + (reg["rot"] or []) + (reg["dims"] or [])))
+                    cases.append((f"SPlace {cb(reg['center'])} {qpt(r['cc'])} {qpt(scale)} {mat} {qpt(r['pos'])} {qpt(row['v'])} {qpt(row[how])} {q(1e-7)}",
+                                  dict(config=cfg, what=f"vertex of the placed mesh ({'built from concrete values' if how == 'direct' else 'region with a random parameter, sampled'}) "
+                                       "is not centre -> scale -> rotate -> translate of the input vertex", input_vertex=row["v"], placed=row[how], how=how,
+                                       position=r["pos"], rotation=r["rot"], dimensions=r["dims"], centerMesh=reg["center"])))
     c.cov["chi2_tests"] = chi[:40]
     c.cov["chi2_count"] = len(chi)
     run_kernel(c, "C03_cases", cases)
